@@ -350,6 +350,22 @@ func dynHeader(r *Rng, w *bitW, final bool, litLens, distLens []int, rleMode, cl
 			}
 		}
 	}
+	if fault == "cl-oversubscribed-2x" {
+		// grossly over-subscribed (Kraft sum >= 2): four code-length codes of one bit
+		n := 0
+		for s := 0; s < 19 && n < 4; s++ {
+			if clLens[s] > 0 {
+				clLens[s] = 1
+				n++
+			}
+		}
+		for s := 0; s < 19 && n < 4; s++ {
+			if clLens[s] == 0 {
+				clLens[s] = 1
+				n++
+			}
+		}
+	}
 	clCodes := canonCodes(clLens)
 	hclen := 19
 	for hclen > 4 && clLens[clOrder[hclen-1]] == 0 {
@@ -490,7 +506,8 @@ type SynthSpec struct {
 
 var faultKinds = []string{"dist-too-far", "unassigned-lit", "unassigned-dist", "lit-oversubscribed", "dist-oversubscribed",
 	"cl-oversubscribed", "no-eob-code", "repeat-first", "run-past-count", "run-past-count-16", "stored-nlen", "reserved-type",
-	"sym-286", "dist-sym-30", "empty-dist-used", "missing-eob", "run-16-at-dist-start"}
+	"sym-286", "dist-sym-30", "empty-dist-used", "missing-eob", "run-16-at-dist-start",
+	"lit-oversubscribed-2x", "dist-oversubscribed-2x", "cl-oversubscribed-2x"}
 
 // Synthesize returns the stream, the bytes it decodes to (up to the fault, if any), whether it is
 // valid for a strict inflater (complete codes), and a short description of its shape.
@@ -673,6 +690,20 @@ func (sp SynthSpec) Synthesize() (stream []byte, data []byte, strict bool, shape
 				if !ok {
 					distLens = []int{1, 1, 1, 0, 0, 0, 0, 0, 0, 0, 0, 0, 0, 0, 0, 0, 0, 0, 0, 0, 0, 0, 0, 0, 0, 0, 0, 0, 0, 0}
 				}
+			case "lit-oversubscribed-2x":
+				// Kraft sum >= 2: four one-bit literal/length codes (a 16-bit running sum wraps on this)
+				n := 0
+				for s := 0; s < 286 && n < 4; s++ {
+					if litLens[s] > 0 {
+						litLens[s] = 1
+						n++
+					}
+				}
+			case "dist-oversubscribed-2x":
+				distLens = make([]int, 30)
+				for s := 0; s < 4+r.Intn(3); s++ {
+					distLens[s] = 1
+				}
 			case "no-eob-code":
 				litLens[256] = 0
 			case "empty-dist-used":
@@ -680,7 +711,7 @@ func (sp SynthSpec) Synthesize() (stream []byte, data []byte, strict bool, shape
 			}
 			hdrFault := ""
 			switch fault {
-			case "repeat-first", "run-past-count", "run-past-count-16", "cl-oversubscribed", "run-16-at-dist-start":
+			case "repeat-first", "run-past-count", "run-past-count-16", "cl-oversubscribed", "cl-oversubscribed-2x", "run-16-at-dist-start":
 				hdrFault = fault
 			}
 			dynHeader(r, w, final, litLens, distLens, r.Intn(4), r.Intn(4), hdrFault)
